@@ -108,6 +108,9 @@ type BitmapSize struct {
 // GlyphData returns the glyph content for [gid], or nil if
 // not found.
 func (f *Face) GlyphData(gid GID) GlyphData {
+	if gid > 0xFFFF { // not a valid glyph: do not truncate it
+		return nil
+	}
 	// since outline may be specified for SVG and bitmaps, check it at the end
 	outB, err := f.sbix.glyphData(gID(gid), f.xPpem, f.yPpem)
 	if err == nil {
